@@ -79,7 +79,7 @@ func VerifC15_CompileTotal() {
 		add(&structs.ServiceSplitterConfigEntry{Kind: structs.ServiceSplitter, Name: "other", Splits: []structs.ServiceSplit{{Weight: 60, Service: "x"}, {Weight: 40, Service: "main"}}})
 	}
 	// resolvers of x and y: none, redirect, failover, subsets
-	switch verifrt.Choice("x.resolver", 4) {
+	switch verifrt.Choice("x.resolver", 5) {
 	case 1:
 		add(&structs.ServiceResolverConfigEntry{Kind: structs.ServiceResolver, Name: "x", Redirect: &structs.ServiceResolverRedirect{Service: "y"}})
 	case 2:
@@ -88,6 +88,10 @@ func VerifC15_CompileTotal() {
 	case 3:
 		add(&structs.ServiceResolverConfigEntry{Kind: structs.ServiceResolver, Name: "x",
 			Failover: map[string]structs.ServiceResolverFailover{"*": {Service: "y"}}})
+	case 4: // a failover section for the default subset and one for every subset
+		add(&structs.ServiceResolverConfigEntry{Kind: structs.ServiceResolver, Name: "x", DefaultSubset: "v1",
+			Subsets:  map[string]structs.ServiceResolverSubset{"v1": {Filter: "Service.Meta.version == v1"}},
+			Failover: map[string]structs.ServiceResolverFailover{"v1": {Service: "y"}, "*": {Service: "w"}}})
 	}
 	switch verifrt.Choice("y.resolver", 3) {
 	case 1:
